@@ -691,11 +691,104 @@ func c11TwoChannels(fs framingSpec) *Scenario {
 	}
 }
 
+// c11Duplex: ONE channel is used by its one sender and its one receiver at the same time, which is what
+// the Channel contract allows and what a Server or a Client does. The two directions must not share
+// anything: the records that arrive are the ones the peer sent, and the bytes written are the frames of
+// the records given to Send, whatever the other direction is doing - for small records and for records
+// beyond the sizes at which an implementation changes strategy (2^20, 2^24).
+func c11Duplex(fs framingSpec, big int, b Bounds) *Scenario {
+	mk := func(tag byte, n int) []byte {
+		r := bytes.Repeat([]byte{tag}, n)
+		if fs.Kind == "rawjson" || n > 1 {
+			r[0], r[n-1] = '"', '"'
+		}
+		return r
+	}
+	incoming := [][]byte{mk('i', 40), mk('j', big), mk('k', 24)}
+	outgoing := [][]byte{mk('o', 30), mk('p', 70), mk('q', 20)}
+	return &Scenario{
+		Name:   fmt.Sprintf("%s: one channel, Send and Recv at the same time, an incoming record of %d bytes", fs.Name, big),
+		Params: map[string]any{"framing": fs.Name, "incoming_sizes": []int{40, big, 24}, "outgoing_sizes": []int{30, 70, 20}},
+		Bounds: b,
+		New: func() *Instance {
+			body := func() {
+				enc := &bufWC{}
+				pre := fs.F(bytes.NewReader(nil), enc)
+				for _, r := range incoming {
+					pre.Send(r)
+				}
+				w := &yieldWC{}
+				ch := fs.F(&yieldR{data: append([]byte{}, enc.Bytes()...)}, w)
+				var j Join
+				j.Go("send", func() {
+					for _, r := range outgoing {
+						if err := ch.Send(r); err != nil {
+							vs.Yield("note")
+							vs.Note("send-error", err.Error())
+						}
+					}
+				})
+				j.Go("recv", func() {
+					for i := 0; i <= len(incoming); i++ {
+						rec, err := ch.Recv()
+						ok := i < len(incoming) && err == nil && bytes.Equal(rec, incoming[i]) || i == len(incoming) && err == io.EOF
+						vs.Yield("note")
+						vs.Note("recv", fmt.Sprint(i), fmt.Sprint(ok), fmt.Sprint(len(rec)), errStr(err))
+					}
+				})
+				j.Wait()
+				// what was written must be exactly the frames of the outgoing records
+				var got []string
+				rd := fs.F(bytes.NewReader(w.buf), &bufWC{})
+				for i := 0; i <= len(outgoing); i++ {
+					rec, err := rd.Recv()
+					got = append(got, string(rec)+"/"+errStr(err))
+				}
+				vs.Note("written", strings.Join(got, " "))
+			}
+			check := func(x *vs.Exec) []Viol {
+				v := genericRules(x, nil)
+				Hit("C11.R1")
+				for _, e := range x.Log {
+					switch e.K {
+					case "send-error":
+						v = append(v, Viol{"C11.R1", fs.Name + ": Send failed while the receiver was active: " + e.Arg(0)})
+					case "recv":
+						if e.Arg(1) != "true" {
+							v = append(v, Viol{"C11.R1", fmt.Sprintf("%s: Recv %s returned %s bytes, error %s while the sender of the same channel was active; want the record the peer sent (the last Recv: io.EOF)", fs.Name, e.Arg(0), e.Arg(2), e.Arg(3))})
+						}
+					case "written":
+						var want []string
+						for _, r := range outgoing {
+							want = append(want, string(r)+"/<nil>")
+						}
+						if w := strings.Join(want, " ") + " /EOF"; e.Arg(0) != w {
+							v = append(v, Viol{"C11.R1", fmt.Sprintf("%s: the bytes written while the receiver was active decode to %.200q, want %.200q", fs.Name, e.Arg(0), w)})
+						}
+					}
+				}
+				return v
+			}
+			return &Instance{Body: body, Check: check}
+		},
+	}
+}
+
 func c11Scenarios(tier string) []*Scenario {
 	var out []*Scenario
 	q := tier == "quick"
 	for _, fs := range framings() {
 		out = append(out, c11TwoChannels(fs))
+	}
+	for _, fs := range framings() {
+		out = append(out, c11Duplex(fs, 300, Bounds{2, -1, 0}))
+		if fs.Kind == "header" {
+			if q {
+				out = append(out, c11Duplex(fs, 1<<24+5, Bounds{1, 1, 0}))
+			} else {
+				out = append(out, c11Duplex(fs, 1<<24+5, Bounds{2, -1, 0}), c11Duplex(fs, 1<<20+5, Bounds{2, -1, 0}))
+			}
+		}
 	}
 	for _, fs := range framings() {
 		ml := 3
